@@ -90,6 +90,10 @@ def check(run, fx, tier, floors=True):
         t06_sib(run, fx)
     if floors or any(b.root.endswith("legacy_symbol_char_code") for b in fx.bodies):
         t06_pua(run, fx)
+    # character codes and glyph ids are not narrowed silently on the lookup side either
+    import narrowing
+    narrowing.rule_narrowing(run, fx, "T06-NARROW", floors=floors, roots=None, floor_n=10,
+                             select=lambda b: b.file in ("src/tables/cmap.rs", "src/font.rs", "src/big5.rs", "src/macroman.rs"))
 
 
 def macroman(run, fx, floors):
